@@ -12,6 +12,7 @@ import Rpki.Proofs.XmlDocLemmas
 import Rpki.Proofs.XmlLemmas
 import Rpki.Proofs.PubMsgLemmas
 import Rpki.Proofs.IdxMsgLemmas
+import Rpki.Proofs.ProvMsgLemmas
 namespace Rpki.Props.C11
 set_option autoImplicit false
 open Rpki.Xml Rpki.XmlDoc
@@ -143,6 +144,30 @@ theorem idexchange_injective (a b : IdxMsg.Msg) (ha : a.WF) (hb : b.WF) (h : Idx
 /-- The written tree meets the side conditions of the document theorem whenever the certificate is not empty. -/
 theorem idexchange_tree_wf (m : IdxMsg.Msg) (hw : m.WF) (hne : m.cert ≠ []) : (IdxMsg.toTree m).WF :=
   IdxMsg.toTree_WF m hw hne
+
+
+/-! ## RFC 6492 messages (`Model/ProvMsg.lean`, tied to `provisioning::Message` by the `prvx` op) -/
+
+/-- **Provisioning protocol, message level.** Every list, list response (any number of classes,
+each with any canonical AS / IPv4 / IPv6 resource set, any time in the four-digit years, any
+number of issued certificates with or without request limits, any certificate octets), issuance
+request and response, revocation request and response (a key identifier of any length) and error
+response is written as a document that the reference reader — including its readers of the
+resource-set text, the time and the two Base64 flavours — reads back as exactly the same
+message. -/
+theorem provisioning_roundtrip (m : ProvMsg.Msg) (hw : m.WF) : ProvMsg.read (ProvMsg.write m) = some m :=
+  ProvMsg.read_write m hw
+
+/-- Two provisioning messages that are written alike are the same message. -/
+theorem provisioning_injective (a b : ProvMsg.Msg) (ha : a.WF) (hb : b.WF) (h : ProvMsg.write a = ProvMsg.write b) :
+    a = b := ProvMsg.write_injective a b ha hb h
+
+/-- The subject key identifier of a revocation survives its unpadded URL-safe Base64 form, whatever
+its length; the `resource_set_notafter` time survives its RFC 3339 form. -/
+theorem provisioning_fields (k : List Nat) (hk : PubMsg.BytesOk k) (c : X509.Civil)
+    (h : c.y < 10000 ∧ c.m < 100 ∧ c.d < 100 ∧ c.h < 100 ∧ c.mi < 100 ∧ c.s < 100) :
+    ProvMsg.unB64Url (ProvMsg.b64Url k) = some k ∧ ProvMsg.readTime (ProvMsg.rfc3339 c) = some c :=
+  ⟨ProvMsg.unB64Url_b64Url k hk, ProvMsg.readTime_rfc3339 c h⟩
 
 
 end Rpki.Props.C11
